@@ -22,6 +22,7 @@
 #include <unistd.h>
 #include <poll.h>
 #include <sys/wait.h>
+#include <sanitizer/lsan_interface.h>
 #include <tins/exceptions.h>
 #include <tins/small_uint.h>
 
@@ -119,6 +120,7 @@ inline int run_all(const std::function<void(const Script&)>& run) {
             } catch (...) {
                 printf("!! uncaught 99 unknown\n");
             }
+            if (__lsan_do_recoverable_leak_check()) printf("!! crash lsan:leak\n");
             fflush(stdout);
             _exit(0);
         }
